@@ -21,12 +21,12 @@ for c in ("rel", "rwdi", "dbg", "dbgna"):
     jobs.append(("subj_pool", c, POOL))
     jobs.append(("subj_stack", c, NA))
 for c in ("rwdi", "dbg"):
-    jobs += [("subj_smart", c, NA), ("subj_compose", c, NA)]
+    jobs += [("subj_smart", c, []), ("subj_compose", c, [])]
 for c in ("rwdi", "dbg", "fence16"):
     jobs.append(("subj_lowlevel", c, NA))
 for c in ("rwdi", "dbg", "tsm1"):
     jobs.append(("subj_temp", c, NA))
-jobs += [("subj_arith", "rwdi", NA), ("subj_locks", "rwdi", []), ("subj_container", "rwdi", NA)]
+jobs += [("subj_arith", "rwdi", NA), ("subj_locks", "rwdi", []), ("subj_container", "rwdi", [])]
 
 
 def one(j):
